@@ -3,6 +3,8 @@
 import json,sys
 pid=sys.argv[1]
 mode=sys.argv[2] if len(sys.argv)>2 else ''
+slot=sys.argv[3] if len(sys.argv)>3 else pid
+focus=sys.argv[4] if len(sys.argv)>4 else ''
 for l in open('/verif/properties.jsonl'):
     p=json.loads(l)
     if p['id']==pid: break
@@ -11,16 +13,18 @@ if mode == "boundary":
     extra = """  5b. HARD TO SEE FOR A PER-FUNCTION CODE REVIEW: the library is also checked by a tool that verifies each function against a written contract, treating the third-party libraries it calls (fxamacker/cbor, go-cose, veraison/eat, encoding/json, reflect, regexp, crypto) as black boxes with assumed behaviour. Prefer changes whose effect arises OUTSIDE the changed function's own logic: a different but plausible argument, option, mode, type or receiver handed to a library call; a struct tag, constant, regular expression, table or initialisation order; a value that aliases or is shared through an interface; behaviour that only shows through reflection or through the interplay of two files. Avoid plain off-by-one / wrong-operator edits in arithmetic or comparisons (those were collected in earlier rounds)."""
 if mode == "cooperate":
     extra = """  5b. WHAT THIS ROUND WANTS. The library is also checked by a tool that verifies each function separately against a written contract, treating the third-party libraries it calls (fxamacker/cbor, go-cose, veraison/eat, encoding/json, reflect, regexp, crypto) as black boxes with assumed behaviour. Earlier rounds already collected: limits added to codec options, struct-tag edits, value<->pointer receiver changes, %w->%v, assign-before-validate in setters, wrong lifecycle range constants, off-by-one length checks in the getters, dropped nil checks. Do NOT deliver those again. Wanted instead, in this order of preference: (i) TWO COOPERATING SITES -- two small edits in different functions (better: different files), each of which is behaviour-preserving or defensible when looked at alone (e.g. a callee starts to rely on something a caller no longer guarantees; a normalisation moves from one place to another and one path is forgotten; a helper's result changes meaning slightly and one of its users is not adapted), which only together break the property; (ii) a change inside a SECONDARY helper that the main paths lean on (small predicates, conversions, key / algorithm checks, CBOR head parsing, ordered-map bookkeeping, registry lookups, error filtering), visible only for unusual inputs; (iii) an effect that needs a multi-step HISTORY on one object (set / fail / set again / encode; sign / fail / decode / verify)."""
+if mode == "walk":
+    extra = """  5b. WHAT THIS ROUND WANTS. The library is also checked by a tool that verifies each function separately against a written contract, treating the third-party libraries it calls (fxamacker/cbor, encoding/json, reflect, strconv, strings) as black boxes with assumed behaviour. This round is about the embedding-aware helpers of package encoding (encoding/cbor.go, encoding/json.go, encoding/embedded.go) and WHAT THEY COMPUTE: which struct fields are emitted or consumed and under which key, the handling of the tag options (omitempty, "-", missing tag), mandatory versus optional fields, merging of embedded structs and embedded interfaces (nil, struct by value, pointer), the order of keys, the bookkeeping of the ordered field maps (Add / Get / Delete / Has, Keys versus Fields), the CBOR map header reader and writer, the JSON key reader. Earlier rounds already collected: an isOmitEmpty flag that stays set / is hoisted out of the loop, `mapLen <= 24`, AppendUint16 in the 4-byte header branch, collectEmbedded returning true for every anonymous field, a dropped rawMap.Delete, the `seen` set re-created per member, clamp errors of the map size hint, unchecked tag-skip lengths. Do NOT deliver those again. """ + ("FOCUS for your two changes: " + focus if focus else "")
 print(f"""You are testing how robust a Go library's guarantees are against subtle regressions.
 
 Library: veraison/psatoken (Go library for PSA attestation tokens: profile-specific claim sets with validation, CBOR/JSON encoding, COSE_Sign1 signing and verification).
-Your private scratch git worktree of it: /tmp/seedwt/{pid}   (work ONLY there; never touch /repo or /verif; do not read anything under /verif)
-Write your results ONLY under: /tmp/seedout/{pid}/
+Your private scratch git worktree of it: /tmp/seedwt/{slot}   (work ONLY there; never touch /repo or /verif; do not read anything under /verif)
+Write your results ONLY under: /tmp/seedout/{slot}/
 
 Every shell call that runs go must start with:
   export GOFLAGS=-mod=mod GOPROXY=off GOSUMDB=off GOTOOLCHAIN=local
 (there is no network; the module cache already has every dependency; do not add dependencies).
-The existing test suite is run with:  cd /tmp/seedwt/{pid} && go test -vet=off -count=1 ./...
+The existing test suite is run with:  cd /tmp/seedwt/{slot} && go test -vet=off -count=1 ./...
 
 The property (a semantic guarantee users of the library rely on):
 
@@ -40,11 +44,11 @@ Make the two changes different in kind and in location (different functions, pre
 {extra}
   6. MINIMAL IN SHAPE: confine each change to EXISTING statements of existing functions -- a condition, a constant, an operator, the order of two statements, which variable or field is used, what is returned or assigned, a struct tag, an option value. Do NOT add new functions or methods, new struct fields, new package-level variables or new imports, and do not call library functions that the edited function does not already call. (Changes of that kind were collected in an earlier round; this round is about edits that hide inside code that already exists.)
 
-For each change X in {{a,b}} deliver, under /tmp/seedout/{pid}/X/:
+For each change X in {{a,b}} deliver, under /tmp/seedout/{slot}/X/:
   - patch.diff : output of `git diff` in the worktree with ONLY that change applied (apply cleanly with `git apply` on a clean worktree; only non-test library files changed)
   - demo_test.go : a Go test file (package psatoken, or package encoding if the change is in encoding/ -- say which directory it belongs in, in meta.json) with ONE test function named TestSeedDemo that FAILS with the change applied and PASSES on the unchanged library. It is copied into the package directory to run; it must not depend on any other new file.
   - meta.json : {{"property":"{pid}","clause":"which clause of the statement is broken","needs":"what specific input/sequence/fault/order is needed for it to manifest","files":["changed files"],"demo_dir":"." or "encoding","how_verified":"the exact commands you ran and what you saw"}}
 
-Procedure you must follow for each change: start from a clean worktree (`git -C /tmp/seedwt/{pid} checkout -- . && git -C /tmp/seedwt/{pid} clean -fd`), make the change, run the full existing suite (must pass), save `git diff` as patch.diff, copy demo_test.go into the package dir as zz_seed_demo_test.go and run `go test -vet=off -count=1 -run TestSeedDemo ./<dir>` (must FAIL), then revert the change (git checkout -- .) keeping the demo and run it again (must PASS), then remove the demo file from the worktree. Leave the worktree clean at the end. 
+Procedure you must follow for each change: start from a clean worktree (`git -C /tmp/seedwt/{slot} checkout -- . && git -C /tmp/seedwt/{slot} clean -fd`), make the change, run the full existing suite (must pass), save `git diff` as patch.diff, copy demo_test.go into the package dir as zz_seed_demo_test.go and run `go test -vet=off -count=1 -run TestSeedDemo ./<dir>` (must FAIL), then revert the change (git checkout -- .) keeping the demo and run it again (must PASS), then remove the demo file from the worktree. Leave the worktree clean at the end. 
 
 Report back in a few lines: for each change, what it does, what it needs to manifest, and confirmation of the three runs (suite passes with change, demo fails with change, demo passes without).""")
